@@ -21,7 +21,9 @@ func c09CfgFor(extendedKids bool) kit.WorldCfg {
 	// a child store over things with an index of its own (nullable unique index over its child-only field)
 	cfg.Children = []kit.ChildCfg{{Name: "kids", Parent: "things", UniqueExtra: true, Extended: extendedKids}}
 	// a link collection between the child store and targets; the targets-side symbol is declared against the parent store
-	cfg.Links = append(append([]kit.LinkCfg(nil), c09Cfg.Links...), kit.LinkCfg{A: "kids", FieldA: "klinks", B: "targets", FieldB: "kback", BackToParent: true})
+	cfg.Links = append(append([]kit.LinkCfg(nil), c09Cfg.Links...), kit.LinkCfg{A: "kids", FieldA: "klinks", B: "targets", FieldB: "kback", BackToParent: true},
+		// a symmetric relation: one symbol of one store is both ends of the collection (it is its own inverse)
+		kit.LinkCfg{A: "targets", FieldA: "peers", B: "targets", FieldB: "peers"})
 	// a store in which no entity was ever created has no entities bucket (its indexes can be corrupted all the same)
 	cfg.LazyBuckets = true
 	return cfg
@@ -77,7 +79,7 @@ func c09OpGen(t *rapid.T, l string, m *kit.Model) kit.Op {
 		}
 		return op
 	}
-	stores := []string{"things", "things", "things", "targets", "targets", "owned", "deps", "kids", "kids", "cowned"}
+	stores := []string{"things", "things", "things", "targets", "targets", "owned", "owned", "deps", "kids", "kids", "cowned", "cowned"}
 	store := stores[rapid.IntRange(0, len(stores)-1).Draw(t, l+"_store")]
 	refsTo := func(s string) []*string {
 		out := []*string{}
@@ -113,7 +115,7 @@ func c09OpGen(t *rapid.T, l string, m *kit.Model) kit.Op {
 var c09Kinds = []string{"unique-missing", "unique-extra-existing", "unique-extra-missing-id", "unique-wrong-target",
 	"set-missing-id", "set-missing-key", "set-extra-id", "set-extra-missing-id", "set-empty-key",
 	"fk-missing-backref", "fk-extra-backref", "fk-extra-backref-missing-id", "fk-dangling-nullable",
-	"link-one-sided", "link-dangling", "link-dangling-pair", "fk-missing-backref-bucket", "link-dangling-plain-parent",
+	"link-one-sided", "link-dangling", "link-dangling-pair", "fk-missing-backref-bucket", "link-dangling-plain-parent", "fk-missing-backref-non-nullable",
 	"unfixable-fk-null-in-non-nullable", "unfixable-fk-dangling-non-nullable",
 	"unfixable-duplicate-unique", "unfixable-null-in-non-nullable"}
 
@@ -321,6 +323,19 @@ func genCorruption(t *rapid.T, l string, kind string, m *kit.Model, used map[str
 			return c, false
 		}
 		c.Store, c.ID, c.Other = "things", id, "ghost-id-"+l
+	case "fk-missing-backref-non-nullable":
+		// the back-reference of a record whose store declares the reference non-nullable
+		store := []string{"owned", "cowned"}[rapid.IntRange(0, 1).Draw(t, l+"_fkStore")]
+		ids := sortedIDs(m.Ents[store])
+		for i := len(ids) - 1; i >= 0; i-- { // the last one in id order: others are visited before it
+			id := ids[i]
+			e := m.Ents[store][id]
+			if e.Ref != nil && *e.Ref != "" && !used[id] && !used[*e.Ref] {
+				c.Store, c.ID, c.Other = store, id, *e.Ref
+				return c, true
+			}
+		}
+		return c, false
 	case "link-dangling-plain-parent":
 		// a target's link set into the child store names a thing that exists but has no child data (plain child store only)
 		for _, cc := range m.Cfg.Children {
@@ -451,7 +466,7 @@ func (c Corruption) mustMention() [][]string {
 		return [][]string{{c.ID, c.Value}}
 	case "set-empty-key":
 		return [][]string{{c.Value}}
-	case "fk-missing-backref", "fk-extra-backref", "fk-extra-backref-missing-id", "fk-dangling-nullable", "link-one-sided", "link-dangling", "link-dangling-pair", "fk-missing-backref-bucket", "link-dangling-plain-parent":
+	case "fk-missing-backref", "fk-extra-backref", "fk-extra-backref-missing-id", "fk-dangling-nullable", "link-one-sided", "link-dangling", "link-dangling-pair", "fk-missing-backref-bucket", "link-dangling-plain-parent", "fk-missing-backref-non-nullable":
 		return [][]string{{c.ID, c.Other}}
 	case "unfixable-duplicate-unique":
 		return [][]string{{c.ID, c.Other, c.Value}}
@@ -593,6 +608,12 @@ func (c Corruption) apply(tx *bbolt.Tx, m *kit.Model) error {
 		return mustBucket(tx, true, "root", "things", c.ID, "tlinks").Put(typed(c.Other), nil)
 	case "link-dangling-plain-parent":
 		return mustBucket(tx, true, "root", "targets", c.ID, "kback").Put(typed(c.Other), nil)
+	case "fk-missing-backref-non-nullable":
+		b := mustBucket(tx, false, "root", "targets", c.Other, "refs_"+c.Store)
+		if b == nil {
+			return fmt.Errorf("no back-reference bucket on %s", c.Other)
+		}
+		return b.Delete(typed(c.ID))
 	case "link-dangling-pair":
 		b := mustBucket(tx, true, "root", "things", c.ID, "tlinks")
 		if err := b.Put(typed(c.Other), nil); err != nil {
@@ -668,6 +689,20 @@ func genC09(t *rapid.T) c09Case {
 			used["role:"+cor.Store+cor.Value] = true
 		}
 		c.Corruptions = append(c.Corruptions, cor)
+		if cor.Kind == "fk-missing-backref-non-nullable" && rapid.Bool().Draw(t, l+"_danglingBefore") {
+			// in the same store an entity that sorts before it has a reference that cannot be repaired: the checker
+			// meets that one first and still has to repair the missing back-reference afterwards
+			for _, id := range sortedIDs(m.Ents[cor.Store]) {
+				if id < cor.ID && !used[id] {
+					d := Corruption{Kind: "unfixable-fk-dangling-non-nullable", Store: cor.Store, ID: id, Other: "ghost-id-" + l + "-before"}
+					for _, tok := range d.tokens() {
+						used[tok] = true
+					}
+					c.Corruptions = append(c.Corruptions, d)
+					break
+				}
+			}
+		}
 	}
 	return c
 }
